@@ -332,7 +332,7 @@ def grammar_json(g):
             rules.append({"kind": "extern", "name": r.name, "fn": oracle_json(r.fn)})
     ws = g.index("Whitespace") if g.rule("Whitespace") is not None else 0
     return {"id": g.id, "rules": rules, "nodes": nodes, "root": g.index(g.root), "ws": ws, "lrfirst": bool(g.meta.get("lrfirst", True)),
-            "derives": g.meta.get("derives_list", ["Debug", "Clone"]), "badident": bool(g.meta.get("badident")),
+            "derives": g.meta.get("derives_list", ["Debug", "Clone"]), "badident": bool(g.meta.get("badident")), "badderive": bool(g.meta.get("badderive")),
             "expect": g.meta.get("expect", "code"), "lean": bool(g.meta.get("lean", False)),
             "alpha": [ord(c) for c in (g.alpha or [])], "maxlen": g.maxlen,
             "extra": [[ord(c) for c in x] for x in g.extra]}
